@@ -36,7 +36,7 @@ def bounds(tier):
 
 def goals(tier):
     return ["blind-complete", "near-miss-valid", "near-miss-invalid", "assembly-product", "assembly-moclo-error", "ambiguity-letter-in-structure",
-            "shorter-than-structure", "invalid-accessor-raises", "record-in-every-container"]
+            "shorter-than-structure", "invalid-accessor-raises", "record-in-every-container", "several-modules-left-over"]
 
 
 def probe(st, sub, cls, s, scn, container="seq"):
@@ -211,9 +211,14 @@ def participant(enz, role, idx, state, base):
 def run_mixed(st, sub, enz, strings, scn):
     M, V = gen.generic_classes(enz)
     conts = scn.get("containers") or ["seq"] * len(strings)
+    idmode = scn.get("ids", "distinct")
     try:
-        v = V(gen.contained(strings[0], conts[0], "v"))
-        ms = [M(gen.contained(x, conts[i + 1], "m%d" % i)) for i, x in enumerate(strings[1:])]
+        if idmode == "default":
+            v = V(CircularRecord(Seq(strings[0])))
+            ms = [M(CircularRecord(Seq(x))) for x in strings[1:]]
+        else:
+            v = V(gen.contained(strings[0], conts[0], "v"))
+            ms = [M(gen.contained(x, conts[i + 1], "m%d" % i if idmode == "distinct" else "part")) for i, x in enumerate(strings[1:])]
     except Exception as ex:
         raise HarnessError("cannot build participants: {}: {}".format(type(ex).__name__, ex))
     o = asm.run_assemble(v, ms)
@@ -251,6 +256,29 @@ def unit_assembly(st, enz, tier):
                 for conts in (["mutable"] * (k + 1), ["annotated"] * (k + 1), ["mutable"] + ["seq"] * k, ["seq"] + ["annotated"] * k):
                     run_mixed(st, "assembly", enz, ss, dict(family="assembly", enz=enz, strings=ss, states=list(combo), perm=list(perm), containers=conts))
                     st.goal("record-in-every-container")
+    # valid assemblies that leave one, two or three modules over, under every assignment of identifiers (distinct, one shared
+    # identifier, none at all), in every argument order: a product and a warning, never an internal error
+    base = asm.base_scenario(enz, 1)
+    g = gen.geometry_of(gen.enzyme(enz))
+    vec, mods = asm.pieces_to_plasmids(base)
+    used = set(base["ovs"]) | set(rm.revcomp(o) for o in base["ovs"])
+    cand = [w for w in gen.overhang_words(g.ov, min(4 ** g.ov // 2, 14), 3) if w not in used and rm.revcomp(w) not in used]
+    extras = []
+    for i in range(0, len(cand) - 1, 2):
+        if rm.revcomp(cand[i]) in (cand[i], cand[i + 1]) or any(cand[i] in (e_[1], rm.revcomp(e_[1])) for e_ in extras):
+            continue
+        x = gen.mk_module(g, cand[i], gen.word(i, 9, 4, [g.site]), cand[i + 1], gen.word(i + 1, 2, 3, [g.site]), x=base["fills"][0][0], y=base["fills"][0][1])
+        if rm.count_sites(x, g) == 2:
+            extras.append((x, cand[i]))
+        if len(extras) == 3:
+            break
+    for n_extra in range(1, len(extras) + 1):
+        pool = [mods[0]] + [e_[0] for e_ in extras[:n_extra]]
+        for perm in itertools.permutations(range(len(pool))):
+            ss = [vec] + [pool[i] for i in perm]
+            for idmode in ("distinct", "same", "default"):
+                run_mixed(st, "assembly", enz, ss, dict(family="assembly", enz=enz, strings=ss, leftovers=n_extra, ids=idmode))
+                st.goal("several-modules-left-over")
     st.sample(dict(family="assembly", enz=enz, states=["valid", "too-short"], k=1))
 
 
